@@ -18,7 +18,8 @@ KDRIVER = os.path.join(LEAN, ".lake", "build", "bin", "kdriver")
 ALLOWED_AXIOMS = {"propext", "Classical.choice", "Quot.sound"}
 FORBIDDEN = re.compile(r"\bsorry\b|\badmit\b|^axiom\s|native_decide|bv_decide|implemented_by|\bunsafe\s|maxHeartbeats\s+0")
 NCPU = os.cpu_count() or 4
-SLOT_OPS = {"ENC", "DEC", "BPE", "UNI", "WP", "TODEF", "SER", "REC", "RT", "ENC2", "ENC7", "ENC9", "ENC18", "REF9"}
+SLOT_STATE_OPS = {"SRCT", "HFA", "HFV", "HFM", "SPT", "SPP"}
+SLOT_OPS = {"KEEPS", "CONVTT", "CONVTK", "CONVHF", "CONVSP", "ENC", "DEC", "BPE", "UNI", "WP", "TODEF", "SER", "REC", "RT", "ENC2", "ENC7", "ENC9", "ENC18", "REF9"}
 
 sys.path.insert(0, os.path.dirname(os.path.abspath(__file__)))
 import props  # per-property metadata
@@ -106,7 +107,10 @@ def build_lean(prop, report):
         targets.insert(0, "Kitoken.Theorems." + prop)
     ok_all = True
     logs = {}
-    for t in targets:
+    # continuation files (C18c imports C18 rather than the other way round)
+    extra = ["Kitoken.Theorems." + os.path.basename(f)[:-5]
+             for f in sorted(glob.glob(os.path.join(LEAN, "Kitoken", "Theorems", prop + "[a-z].lean")))]
+    for t in targets + extra:
         rc, out = sh(["lake", "build", t], cwd=LEAN, timeout=3600)
         logs[t] = out[-6000:]
         if rc != 0:
@@ -127,6 +131,8 @@ def audit(prop, report, thorough):
     path = os.path.join(audit_dir, prop + ".lean")
     with open(path, "w") as f:
         f.write("import Kitoken.Theorems.%s\n" % prop)
+        for extra in sorted(glob.glob(os.path.join(LEAN, "Kitoken", "Theorems", prop + "[a-z].lean"))):
+            f.write("import Kitoken.Theorems.%s\n" % os.path.basename(extra)[:-5])
         for n in names:
             f.write("#print axioms Kitoken.%s.%s\n" % (prop, n))
     rc, out = sh(["lake", "env", "lean", path], cwd=LEAN, timeout=1800)
@@ -326,7 +332,10 @@ def main():
                     slot = request.split(" ", 2)[1]
                     if request.split(" ")[2] == "NEW":
                         slot_defs[slot] = []
-                    slot_defs.setdefault(slot, []).append(request)
+                    slot_defs.setdefault(slot, []).append(request + (" :: " + impl if impl else ""))
+                elif request.split(" ", 1)[0] in SLOT_STATE_OPS:
+                    # further state of a slot (parsed source of a converter check)
+                    slot_defs.setdefault(request.split(" ", 2)[1], []).append(request)
                 if impl == "":     # state-setting line (DEF …): driver must acknowledge
                     if not ans.startswith("ACK"):
                         cases["driver_errors"].append("no ACK for %s: %s" % (request[:80], ans[:200]))
